@@ -7,3 +7,13 @@ pub mod common;
 mod h_newtypes;
 #[cfg(kani)]
 mod h_pairs;
+#[cfg(kani)]
+mod h_ctrl;
+#[cfg(kani)]
+mod h_tcpopt;
+#[cfg(kani)]
+mod h_roundtrip;
+#[cfg(kani)]
+mod h_packet;
+#[cfg(kani)]
+mod h_extdef;
